@@ -99,6 +99,31 @@ func evalHelper(x *Exec, h helperCase) {
 		if _, err := x.Verify(stump, hs, pr); err != nil {
 			x.Report("C14", "the proof returned by AddProof does not verify", fmt.Sprintf("state %s A=%v B=%v: %v", s.Key(), h.A, h.B, err))
 		}
+		// feed AddProof's output into GetProofSubset (every single target and the first+last pair)
+		// and into GetMissingPositions
+		var wantSets [][]int
+		for _, sl := range un {
+			wantSets = append(wantSets, []int{sl})
+		}
+		if len(un) > 2 {
+			wantSets = append(wantSets, []int{un[len(un)-1], un[0]})
+		}
+		for _, W := range wantSets {
+			var sh []Hash
+			var sp u.Proof
+			wt := L.Targets(W)
+			err := safe(func() error {
+				var e error
+				sh, sp, e = u.GetProofSubset(pr, hs, wt, N)
+				return e
+			})
+			wantP := L.Proof(W)
+			if err != nil {
+				x.Report("C14", "GetProofSubset fails on the output of AddProof", fmt.Sprintf("state %s A=%v B=%v wants %v: %v", s.Key(), h.A, h.B, W, err))
+			} else if !eqT(sp.Targets, wantP.Targets) || !eqH(sp.Proof, wantP.Proof) || !eqH(sh, ref.Hashes(W)) {
+				x.Report("C14", "GetProofSubset of the output of AddProof is not the canonical proof of the subset", fmt.Sprintf("state %s A=%v B=%v wants %v: want %s got %s", s.Key(), h.A, h.B, W, proofStr(wantP), proofStr(sp)))
+			}
+		}
 	case "subset":
 		pa := L.Proof(h.A)
 		ha := ref.Hashes(h.A)
